@@ -21,7 +21,15 @@ func StringToNote(note string) (byte, error) {
 		return 0, fmt.Errorf("parsing octave failed: %w", err)
 	}
 
-	calculated := (uint8(octave)+2)*12 + pitchToVal[pitch]
+	pitchVal, ok := pitchToVal[pitch]
+	if !ok {
+		return 0, fmt.Errorf("unsupported pitch name: %s", match[1])
+	}
+	if octave < -2 || octave > 8 || match[2] == "-0" {
+		return 0, fmt.Errorf("octave outside of -2..8 range: %s", match[2])
+	}
+
+	calculated := (uint8(octave)+2)*12 + pitchVal
 	if calculated < 0 || calculated > 127 {
 		return 0, fmt.Errorf("note outside of midi range 0-127: %d", calculated)
 	}
